@@ -90,6 +90,26 @@ func checkURLLoose(id, kind string, ref registry.Reference) {
 	}
 }
 
+// splitObs: net/url's own parse of a built URL, compared with the model's RFC 3986 splitter
+func splitObs(u string) string {
+	pu, err := url.Parse(u)
+	if err != nil {
+		return "NOSPLIT"
+	}
+	opt := func(present bool, v string) string {
+		if !present {
+			return "none"
+		}
+		return "some:" + common.Hex(v)
+	}
+	split := fmt.Sprintf("SPLIT %s %s %s %s %s", common.Hex(pu.Scheme), common.Hex(pu.Host), common.Hex(pu.EscapedPath()),
+		opt(pu.RawQuery != "" || pu.ForceQuery, pu.RawQuery), opt(pu.Fragment != "" || strings.HasSuffix(u, "#"), pu.EscapedFragment()))
+	if pu.User != nil {
+		split += " USERINFO"
+	}
+	return split
+}
+
 func urlCase(kind string, plain bool, ref registry.Reference) {
 	id := run.NewID()
 	u := remote.VerifURL(kind, plain, ref)
@@ -97,21 +117,7 @@ func urlCase(kind string, plain bool, ref registry.Reference) {
 	if plain {
 		p = "1"
 	}
-	// net/url's own parse of the built URL, compared with the model's RFC 3986 splitter
-	split := "NOSPLIT"
-	if pu, err := url.Parse(u); err == nil {
-		opt := func(present bool, v string) string {
-			if !present {
-				return "none"
-			}
-			return "some:" + common.Hex(v)
-		}
-		split = fmt.Sprintf("SPLIT %s %s %s %s %s", common.Hex(pu.Scheme), common.Hex(pu.Host), common.Hex(pu.EscapedPath()),
-			opt(pu.RawQuery != "" || pu.ForceQuery, pu.RawQuery), opt(pu.Fragment != "" || strings.HasSuffix(u, "#"), pu.EscapedFragment()))
-		if pu.User != nil {
-			split += " USERINFO"
-		}
-	}
+	split := splitObs(u)
 	run.Case(id, fmt.Sprintf("U %s %s %s %s %s", kind, p, common.Hex(ref.Registry), common.Hex(ref.Repository), common.Hex(ref.Reference)),
 		"URL "+common.Hex(u)+" "+split)
 	run.Nontrivial("U:" + kind + p + ref.String())
@@ -150,14 +156,22 @@ func namesOtherRepository(base registry.Reference, s string) bool {
 // path must be exactly the slot and the query must decode to exactly the intended parameters.
 func queryURLCases(r *common.Rand) {
 	ats := []string{"application/vnd.example+type", "a b", "a&b=c", "x#y", "a?b", "\xc3\xa9", "%41", "a+b", "a/b;c=d", "=&", "application/vnd.oci.image.config.v1+json"}
-	for i := 0; i < run.Scale(1500, 30000); i++ {
+	for i := 0; i < run.Scale(6000, 100000); i++ {
 		ref, err := registry.ParseReference(randomValid(r))
 		if err != nil || registryVerdict(ref.Registry) != 1 {
 			continue
 		}
 		ref.Reference = randDigestValid(r)
 		if r.Bool() {
-			queryURLCase("referrers", r.Bool(), ref, common.Pick(r, ats))
+			at := common.Pick(r, ats)
+			if r.Bool() {
+				bs := make([]byte, r.Intn(12))
+				for i := range bs {
+					bs[i] = byte(r.Intn(256))
+				}
+				at = string(bs)
+			}
+			queryURLCase("referrers", r.Bool(), ref, at)
 		} else if from, err := registry.ParseReference(randomValid(r)); err == nil {
 			queryURLCase("mount", r.Bool(), ref, from.Repository)
 		}
@@ -174,13 +188,21 @@ func queryURLCase(kind string, plain bool, ref registry.Reference, arg string) {
 	if kind == "referrers" {
 		u = remote.VerifReferrersURL(plain, ref, arg)
 		wantPath = "/v2/" + ref.Repository + "/referrers/" + ref.Reference
-		want["artifactType"] = arg
+		if arg != "" { // an empty filter means "no filter": no query at all
+			want["artifactType"] = arg
+		}
 	} else {
 		u = remote.VerifMountURL(plain, ref, digest.Digest(ref.Reference), arg)
 		wantPath = "/v2/" + ref.Repository + "/blobs/uploads/"
 		want["mount"], want["from"] = ref.Reference, arg
 	}
 	rep := map[string]any{"op": "Q", "kind": kind, "plain": plain, "registry": ref.Registry, "repository": ref.Repository, "reference": ref.Reference, "input": arg}
+	pl := "0"
+	if plain {
+		pl = "1"
+	}
+	run.Case(id, fmt.Sprintf("Q %s %s %s %s %s %s", kind, pl, common.Hex(ref.Registry), common.Hex(ref.Repository), common.Hex(ref.Reference), common.Hex(arg)),
+		"URL "+common.Hex(u)+" "+splitObs(u))
 	pu, err := url.Parse(u)
 	if err != nil {
 		run.OracleFail(id, "url-query", fmt.Sprintf("%s URL %q of %+v does not parse: %v", kind, u, ref, err), rep)
